@@ -117,6 +117,9 @@ class Parser:
 
         elif len(string) == 1:
             # Single element e.g. [C] i.e. string = 'C'
+            if string not in elements and string not in aromatic_symbols:
+                raise InvalidSmilesString(f'Unknown item {string} in a "[]"')
+
             self.atoms.append(SMILESAtom(string, n_hydrogens=0))
             return
 
@@ -208,7 +211,7 @@ class Parser:
         """
         curr_char = self._string[idx]
 
-        if curr_char.isdigit():
+        if curr_char in "0123456789":
             return int(curr_char) - 1
 
         if curr_char == "%":
@@ -413,7 +416,7 @@ class Parser:
                 continue
 
             # Integer for a dangling bond e.g. C1, C=1, N3 etc.
-            elif char.isdigit() or char == "%":
+            elif char in "0123456789%":
                 if self.n_atoms == 0:
                     raise InvalidSmilesString("Ring bond before any atom")
 
@@ -437,6 +440,10 @@ class Parser:
                     symbol=bond_symbol,
                     bond_idx=len(self.bonds),
                 )
+                # No atom has been added so there is no bond to add and the
+                # atom to bond the next to is unchanged
+                self.parsed_idxs.add(i)
+                continue
 
             # Any square bracketed atom with hydrogens defined e.g. [OH], [Fe]
             elif char == "[":
